@@ -596,7 +596,10 @@ def _worker(arg):
         mut, data, want, label, extra = make_input(cfg, case)
         rec = oracle(cfg, data, want, label, extra)
         if extra and rec["events"]:
-            rec.setdefault("detail", {}).update({"siblings/" + n: c for n, c in extra.items() if n != "i.nano"})
+            if len(extra) <= 40:
+                rec.setdefault("detail", {}).update({"siblings/" + n: c for n, c in extra.items() if n != "i.nano"})
+            else:
+                rec.setdefault("detail", {})["siblings.txt"] = "%d generated sibling modules: nlv.mutate_src.import_chain(%d)\n" % (len(extra) - 1, len(extra) - 1)
         rec["mut"] = mut
         rec["case"] = case
         rec["size"] = len(data)
@@ -880,7 +883,7 @@ def run(ctx):
         # depth generators: sanity (small depths of the well-formed generators are accepted) and max depth handled
         max_ok = {}
         for g, tab in sorted(depth_tab.items()):
-            builder, nesting, valid = ms.DEPTH_GENERATORS[g]
+            builder, nesting, valid = ms.DEPTH_GENERATORS.get(g, (None, False, False))
             ok = [d for d, v in tab.items() if all(x in ("accept", "diagnosed") for x in v.split("/"))]
             max_ok[g] = max(ok) if ok else 0
             if valid:
